@@ -2,10 +2,12 @@
 // three exported types against RFC 3713 (bcref::camellia) for EVERY value of the subkey array, the public API on
 // bytes for every key and block, and the round trip C01 in both orders.
 //
-// Decomposition: the callees f, fl, flinv are replaced by their contracts (bcref::camellia::{f, fl, flinv}, licensed by
-// utils.rs c_f, c_fl, c_flinv), so what is checked here is the round structure, subkey order and byte plumbing.  For the
-// round trip F is further abstracted to an uninterpreted function of (input, key) (a Feistel network inverts whatever F
-// is; licensed by c_f: f is a pure function) while FL / FLINV stay the real ones (they must be mutually inverse).
+// Decomposition: utils.rs shows that the callees f, fl, flinv ARE the RFC's F, FL, FLINV (c_f, c_fl, c_flinv).  Here F is
+// replaced on BOTH sides (crate::utils::f and bcref::camellia::f) by one record / replay uninterpreted function of
+// (input ^ key) (see contracts/sm4/rr_uf.rs; l_f_xor shows that F depends on its two arguments only through their XOR),
+// FL / FLINV by the reference's (cheap, bitwise), so what is checked is the round structure, subkey order and byte
+// plumbing, for every F.  For the round trip FL / FLINV stay the real ones (they must be mutually inverse) and
+// decryption presents F with the arguments of encryption in reverse order.
 //
 // @module file=camellia/src/lib.rs
 use super::*;
@@ -36,57 +38,52 @@ pub fn dec<C: cipher::BlockCipherDecrypt + cipher::BlockSizeUser<BlockSize = U16
     blk.0
 }
 
-/// Uninterpreted function (u64, u64) -> u64 (Ackermann table with a concrete call counter).
-pub mod uf2 {
-    pub const MAXC: usize = 48;
-    pub static mut A: [u64; MAXC] = [0; MAXC];
-    pub static mut B: [u64; MAXC] = [0; MAXC];
-    pub static mut OUT: [u64; MAXC] = [0; MAXC];
-    pub static mut N: usize = 0;
-    #[allow(static_mut_refs)]
-    pub fn f(a: u64, b: u64) -> u64 {
-        unsafe {
-            let mut y: u64 = kani::any();
-            let mut found = false;
-            let mut i = 0;
-            while i < N {
-                if !found && A[i] == a && B[i] == b { y = OUT[i]; found = true; }
-                i += 1;
-            }
-            assert!(N < MAXC);
-            A[N] = a;
-            B[N] = b;
-            OUT[N] = y;
-            N += 1;
-            y
-        }
-    }
+include!("@VERIF@/contracts/sm4/rr_uf.rs");
+rr_uf!(uff, u64); // stands for x -> F(x, 0); F(x, k) = F(x ^ k, 0) by l_f_xor
+pub fn uf_f(input: u64, key: u64) -> u64 { uff::f(input ^ key) }
+
+// F depends on (input, key) only through input ^ key: real and reference.
+// @ob name=l_f_xor props=C06 kind=lemma fn=camellia::utils::f timeout=120
+#[kani::proof]
+fn l_f_xor() {
+    let x: u64 = kani::any();
+    let k: u64 = kani::any();
+    assert!(crate::utils::f(x, k) == crate::utils::f(x ^ k, 0));
+    assert!(bcref::camellia::f(x, k) == bcref::camellia::f(x ^ k, 0));
 }
 
 // ---------------------------------------------------------------- block functions == RFC 3713, every subkey state
-// @ob name=c_enc_128 props=C06,C20 fn=camellia::Camellia128::encrypt_block uses=c_f,c_fl,c_flinv timeout=300
+// @ob name=c_enc_128 props=C06,C20 fn=camellia::Camellia128::encrypt_block uses=c_f,l_f_xor,c_fl,c_flinv timeout=300
 #[kani::proof]
-#[kani::stub(crate::utils::f, bcref::camellia::f)]
+#[kani::stub(crate::utils::f, uf_f)]
+#[kani::stub(bcref::camellia::f, uf_f)]
 #[kani::stub(crate::utils::fl, bcref::camellia::fl)]
 #[kani::stub(crate::utils::flinv, bcref::camellia::flinv)]
 #[kani::unwind(35)]
 fn c_enc_128() {
     let c = any128();
     let b: [u8; 16] = kani::any();
-    let r = bcref::camellia::encrypt_with_18(&sk18_of(&c.k), u128::from_be_bytes(b));
-    assert!(u128::from_be_bytes(enc(&c, b)) == r);
+    let r = u128::from_be_bytes(enc(&c, b));
+    uff::replay_fwd();
+    let e = bcref::camellia::encrypt_with_18(&sk18_of(&c.k), u128::from_be_bytes(b));
+    assert!(uff::done() && uff::calls() == 18);
+    assert!(r == e);
 }
-// @ob name=c_dec_128 props=C06,C20 fn=camellia::Camellia128::decrypt_block uses=c_f,c_fl,c_flinv timeout=300
+// @ob name=c_dec_128 props=C06,C20 fn=camellia::Camellia128::decrypt_block uses=c_f,l_f_xor,c_fl,c_flinv timeout=300
 #[kani::proof]
-#[kani::stub(crate::utils::f, bcref::camellia::f)]
+#[kani::stub(crate::utils::f, uf_f)]
+#[kani::stub(bcref::camellia::f, uf_f)]
 #[kani::stub(crate::utils::fl, bcref::camellia::fl)]
 #[kani::stub(crate::utils::flinv, bcref::camellia::flinv)]
 #[kani::unwind(35)]
 fn c_dec_128() {
     let c = any128();
     let b: [u8; 16] = kani::any();
-    let r = bcref::camellia::decrypt_with_18(&sk18_of(&c.k), u128::from_be_bytes(b));
-    assert!(u128::from_be_bytes(dec(&c, b)) == r);
+    let r = u128::from_be_bytes(dec(&c, b));
+    uff::replay_fwd();
+    let e = bcref::camellia::decrypt_with_18(&sk18_of(&c.k), u128::from_be_bytes(b));
+    assert!(uff::done() && uff::calls() == 18);
+    assert!(r == e);
 }
 
 macro_rules! block24 {
@@ -99,8 +96,11 @@ macro_rules! block24 {
         fn $enc() {
             let c = $mk();
             let b: [u8; 16] = kani::any();
-            let r = bcref::camellia::encrypt_with_24(&sk24_of(&c.k), u128::from_be_bytes(b));
-            assert!(u128::from_be_bytes(enc(&c, b)) == r);
+            let r = u128::from_be_bytes(enc(&c, b));
+            uff::replay_fwd();
+            let e = bcref::camellia::encrypt_with_24(&sk24_of(&c.k), u128::from_be_bytes(b));
+            assert!(uff::done() && uff::calls() == 24);
+            assert!(r == e);
         }
         #[kani::proof]
         #[kani::stub(crate::utils::f, bcref::camellia::f)]
@@ -110,16 +110,19 @@ macro_rules! block24 {
         fn $dec() {
             let c = $mk();
             let b: [u8; 16] = kani::any();
-            let r = bcref::camellia::decrypt_with_24(&sk24_of(&c.k), u128::from_be_bytes(b));
-            assert!(u128::from_be_bytes(dec(&c, b)) == r);
+            let r = u128::from_be_bytes(dec(&c, b));
+            uff::replay_fwd();
+            let e = bcref::camellia::decrypt_with_24(&sk24_of(&c.k), u128::from_be_bytes(b));
+            assert!(uff::done() && uff::calls() == 24);
+            assert!(r == e);
         }
     };
 }
-// @ob name=c_enc_192 props=C06,C20 fn=camellia::Camellia192::encrypt_block uses=c_f,c_fl,c_flinv timeout=300
-// @ob name=c_dec_192 props=C06,C20 fn=camellia::Camellia192::decrypt_block uses=c_f,c_fl,c_flinv timeout=300
+// @ob name=c_enc_192 props=C06,C20 fn=camellia::Camellia192::encrypt_block uses=c_f,l_f_xor,c_fl,c_flinv timeout=300
+// @ob name=c_dec_192 props=C06,C20 fn=camellia::Camellia192::decrypt_block uses=c_f,l_f_xor,c_fl,c_flinv timeout=300
 block24!(c_enc_192, c_dec_192, any192);
-// @ob name=c_enc_256 props=C06,C20 fn=camellia::Camellia256::encrypt_block uses=c_f,c_fl,c_flinv timeout=300
-// @ob name=c_dec_256 props=C06,C20 fn=camellia::Camellia256::decrypt_block uses=c_f,c_fl,c_flinv timeout=300
+// @ob name=c_enc_256 props=C06,C20 fn=camellia::Camellia256::encrypt_block uses=c_f,l_f_xor,c_fl,c_flinv timeout=300
+// @ob name=c_dec_256 props=C06,C20 fn=camellia::Camellia256::decrypt_block uses=c_f,l_f_xor,c_fl,c_flinv timeout=300
 block24!(c_enc_256, c_dec_256, any256);
 
 // ---------------------------------------------------------------- key schedules (KeyInit::new) == RFC 3713 section 2.2
@@ -128,12 +131,14 @@ block24!(c_enc_256, c_dec_256, any256);
 #[kani::proof]
 #[kani::stub(crate::utils::set_ka, spec_set_ka)]
 #[kani::stub(crate::utils::gen_subkeys26, spec_gen_subkeys26)]
-#[kani::stub(bcref::camellia::f, uf2::f)]
+#[kani::stub(bcref::camellia::f, uf_f)]
 #[kani::unwind(35)]
 fn c_new_128() {
     let k: [u8; 16] = kani::any();
     let c = Camellia128::new(&Array(k));
+    uff::replay_fwd();
     let s = bcref::camellia::key_schedule_128(&k);
+    assert!(uff::done() && uff::calls() == 4);
     assert!(eq26(&c.k, &crate::utils::__vp_utils::flat26(&s)));
 }
 // @ob name=c_new_192 props=C06,C20 fn=camellia::Camellia192::new uses=c_set_ka,c_set_kb,c_get_subkeys34 timeout=300
@@ -141,12 +146,14 @@ fn c_new_128() {
 #[kani::stub(crate::utils::set_ka, spec_set_ka)]
 #[kani::stub(crate::utils::set_kb, spec_set_kb)]
 #[kani::stub(crate::utils::get_subkeys34, spec_get_subkeys34)]
-#[kani::stub(bcref::camellia::f, uf2::f)]
+#[kani::stub(bcref::camellia::f, uf_f)]
 #[kani::unwind(35)]
 fn c_new_192() {
     let k: [u8; 24] = kani::any();
     let c = Camellia192::new(&Array(k));
+    uff::replay_fwd();
     let s = bcref::camellia::key_schedule_192(&k);
+    assert!(uff::done() && uff::calls() == 6);
     assert!(eq34(&c.k, &crate::utils::__vp_utils::flat34(&s)));
 }
 // @ob name=c_new_256 props=C06,C20 fn=camellia::Camellia256::new uses=c_set_ka,c_set_kb,c_get_subkeys34 timeout=300
@@ -154,19 +161,22 @@ fn c_new_192() {
 #[kani::stub(crate::utils::set_ka, spec_set_ka)]
 #[kani::stub(crate::utils::set_kb, spec_set_kb)]
 #[kani::stub(crate::utils::get_subkeys34, spec_get_subkeys34)]
-#[kani::stub(bcref::camellia::f, uf2::f)]
+#[kani::stub(bcref::camellia::f, uf_f)]
 #[kani::unwind(35)]
 fn c_new_256() {
     let k: [u8; 32] = kani::any();
     let c = Camellia256::new(&Array(k));
+    uff::replay_fwd();
     let s = bcref::camellia::key_schedule_256(&k);
+    assert!(uff::done() && uff::calls() == 6);
     assert!(eq34(&c.k, &crate::utils::__vp_utils::flat34(&s)));
 }
 
 // ---------------------------------------------------------------- public API on bytes, every key and block
-// Only the leaf functions f, fl, flinv are replaced by their contracts; set_ka / set_kb / subkey generation / rounds are real.
+// Only the leaf functions f (abstracted on both sides), fl, flinv are replaced; set_ka / set_kb / subkey generation / rounds are real.
+// F is called 4 (+2 for KB) times by the key schedule and 18 / 24 times by the rounds.
 macro_rules! api {
-    ($enc:ident, $dec:ident, $ty:ident, $n:expr, $refenc:path, $refdec:path) => {
+    ($enc:ident, $dec:ident, $ty:ident, $n:expr, $calls:expr, $refenc:path, $refdec:path) => {
         #[kani::proof]
         #[kani::stub(crate::utils::f, bcref::camellia::f)]
         #[kani::stub(crate::utils::fl, bcref::camellia::fl)]
@@ -176,7 +186,11 @@ macro_rules! api {
             let k: [u8; $n] = kani::any();
             let b: [u8; 16] = kani::any();
             let c = $ty::new(&Array(k));
-            assert!(eq_bytes16(&enc(&c, b), &$refenc(&k, &b)));
+            let r = enc(&c, b);
+            uff::replay_fwd();
+            let e = $refenc(&k, &b);
+            assert!(uff::done() && uff::calls() == $calls);
+            assert!(eq_bytes16(&r, &e));
         }
         #[kani::proof]
         #[kani::stub(crate::utils::f, bcref::camellia::f)]
@@ -187,47 +201,59 @@ macro_rules! api {
             let k: [u8; $n] = kani::any();
             let b: [u8; 16] = kani::any();
             let c = $ty::new(&Array(k));
-            assert!(eq_bytes16(&dec(&c, b), &$refdec(&k, &b)));
+            let r = dec(&c, b);
+            uff::replay_fwd();
+            let e = $refdec(&k, &b);
+            assert!(uff::done() && uff::calls() == $calls);
+            assert!(eq_bytes16(&r, &e));
         }
     };
 }
-// @ob name=c_api_enc_128 props=C06,C20 fn=camellia::Camellia128::new,camellia::Camellia128::encrypt_block uses=c_f,c_fl,c_flinv timeout=600
-// @ob name=c_api_dec_128 props=C06,C20 fn=camellia::Camellia128::new,camellia::Camellia128::decrypt_block uses=c_f,c_fl,c_flinv timeout=600
-api!(c_api_enc_128, c_api_dec_128, Camellia128, 16, bcref::camellia::encrypt_128, bcref::camellia::decrypt_128);
-// @ob name=c_api_enc_192 props=C06,C20 fn=camellia::Camellia192::new,camellia::Camellia192::encrypt_block uses=c_f,c_fl,c_flinv timeout=600
-// @ob name=c_api_dec_192 props=C06,C20 fn=camellia::Camellia192::new,camellia::Camellia192::decrypt_block uses=c_f,c_fl,c_flinv timeout=600
-api!(c_api_enc_192, c_api_dec_192, Camellia192, 24, bcref::camellia::encrypt_192, bcref::camellia::decrypt_192);
-// @ob name=c_api_enc_256 props=C06,C20 fn=camellia::Camellia256::new,camellia::Camellia256::encrypt_block uses=c_f,c_fl,c_flinv timeout=600
-// @ob name=c_api_dec_256 props=C06,C20 fn=camellia::Camellia256::new,camellia::Camellia256::decrypt_block uses=c_f,c_fl,c_flinv timeout=600
-api!(c_api_enc_256, c_api_dec_256, Camellia256, 32, bcref::camellia::encrypt_256, bcref::camellia::decrypt_256);
+// @ob name=c_api_enc_128 props=C06,C20 fn=camellia::Camellia128::new,camellia::Camellia128::encrypt_block uses=c_f,l_f_xor,c_fl,c_flinv timeout=600
+// @ob name=c_api_dec_128 props=C06,C20 fn=camellia::Camellia128::new,camellia::Camellia128::decrypt_block uses=c_f,l_f_xor,c_fl,c_flinv timeout=600
+api!(c_api_enc_128, c_api_dec_128, Camellia128, 16, 22, bcref::camellia::encrypt_128, bcref::camellia::decrypt_128);
+// @ob name=c_api_enc_192 props=C06,C20 fn=camellia::Camellia192::new,camellia::Camellia192::encrypt_block uses=c_f,l_f_xor,c_fl,c_flinv timeout=600
+// @ob name=c_api_dec_192 props=C06,C20 fn=camellia::Camellia192::new,camellia::Camellia192::decrypt_block uses=c_f,l_f_xor,c_fl,c_flinv timeout=600
+api!(c_api_enc_192, c_api_dec_192, Camellia192, 24, 30, bcref::camellia::encrypt_192, bcref::camellia::decrypt_192);
+// @ob name=c_api_enc_256 props=C06,C20 fn=camellia::Camellia256::new,camellia::Camellia256::encrypt_block uses=c_f,l_f_xor,c_fl,c_flinv timeout=600
+// @ob name=c_api_dec_256 props=C06,C20 fn=camellia::Camellia256::new,camellia::Camellia256::decrypt_block uses=c_f,l_f_xor,c_fl,c_flinv timeout=600
+api!(c_api_enc_256, c_api_dec_256, Camellia256, 32, 30, bcref::camellia::encrypt_256, bcref::camellia::decrypt_256);
 
 // ---------------------------------------------------------------- C01 round trips, every subkey state, both orders
 macro_rules! roundtrip {
-    ($fwd:ident, $rev:ident, $mk:ident) => {
+    ($fwd:ident, $rev:ident, $mk:ident, $calls:expr) => {
         #[kani::proof]
-        #[kani::stub(crate::utils::f, uf2::f)]
-        #[kani::unwind(49)]
+        #[kani::stub(crate::utils::f, uf_f)]
+        #[kani::unwind(35)]
         fn $fwd() {
             let c = $mk();
             let b: [u8; 16] = kani::any();
-            assert!(eq_bytes16(&dec(&c, enc(&c, b)), &b));
+            let y = enc(&c, b);
+            uff::replay_bwd();
+            let x = dec(&c, y);
+            assert!(uff::done() && uff::calls() == $calls);
+            assert!(eq_bytes16(&x, &b));
         }
         #[kani::proof]
-        #[kani::stub(crate::utils::f, uf2::f)]
-        #[kani::unwind(49)]
+        #[kani::stub(crate::utils::f, uf_f)]
+        #[kani::unwind(35)]
         fn $rev() {
             let c = $mk();
             let b: [u8; 16] = kani::any();
-            assert!(eq_bytes16(&enc(&c, dec(&c, b)), &b));
+            let y = dec(&c, b);
+            uff::replay_bwd();
+            let x = enc(&c, y);
+            assert!(uff::done() && uff::calls() == $calls);
+            assert!(eq_bytes16(&x, &b));
         }
     };
 }
-// @ob name=l_roundtrip_128 props=C01 kind=lemma fn=camellia::Camellia128::encrypt_block,camellia::Camellia128::decrypt_block,camellia::utils::fl,camellia::utils::flinv uses=c_f timeout=600
-// @ob name=l_roundtrip_rev_128 props=C01 kind=lemma fn=camellia::Camellia128::encrypt_block,camellia::Camellia128::decrypt_block,camellia::utils::fl,camellia::utils::flinv uses=c_f timeout=600
-roundtrip!(l_roundtrip_128, l_roundtrip_rev_128, any128);
-// @ob name=l_roundtrip_192 props=C01 kind=lemma fn=camellia::Camellia192::encrypt_block,camellia::Camellia192::decrypt_block,camellia::utils::fl,camellia::utils::flinv uses=c_f timeout=600
-// @ob name=l_roundtrip_rev_192 props=C01 kind=lemma fn=camellia::Camellia192::encrypt_block,camellia::Camellia192::decrypt_block,camellia::utils::fl,camellia::utils::flinv uses=c_f timeout=600
-roundtrip!(l_roundtrip_192, l_roundtrip_rev_192, any192);
-// @ob name=l_roundtrip_256 props=C01 kind=lemma fn=camellia::Camellia256::encrypt_block,camellia::Camellia256::decrypt_block,camellia::utils::fl,camellia::utils::flinv uses=c_f timeout=600
-// @ob name=l_roundtrip_rev_256 props=C01 kind=lemma fn=camellia::Camellia256::encrypt_block,camellia::Camellia256::decrypt_block,camellia::utils::fl,camellia::utils::flinv uses=c_f timeout=600
-roundtrip!(l_roundtrip_256, l_roundtrip_rev_256, any256);
+// @ob name=l_roundtrip_128 props=C01 kind=lemma fn=camellia::Camellia128::encrypt_block,camellia::Camellia128::decrypt_block,camellia::utils::fl,camellia::utils::flinv uses=c_f,l_f_xor timeout=600
+// @ob name=l_roundtrip_rev_128 props=C01 kind=lemma fn=camellia::Camellia128::encrypt_block,camellia::Camellia128::decrypt_block,camellia::utils::fl,camellia::utils::flinv uses=c_f,l_f_xor timeout=600
+roundtrip!(l_roundtrip_128, l_roundtrip_rev_128, any128, 18);
+// @ob name=l_roundtrip_192 props=C01 kind=lemma fn=camellia::Camellia192::encrypt_block,camellia::Camellia192::decrypt_block,camellia::utils::fl,camellia::utils::flinv uses=c_f,l_f_xor timeout=600
+// @ob name=l_roundtrip_rev_192 props=C01 kind=lemma fn=camellia::Camellia192::encrypt_block,camellia::Camellia192::decrypt_block,camellia::utils::fl,camellia::utils::flinv uses=c_f,l_f_xor timeout=600
+roundtrip!(l_roundtrip_192, l_roundtrip_rev_192, any192, 24);
+// @ob name=l_roundtrip_256 props=C01 kind=lemma fn=camellia::Camellia256::encrypt_block,camellia::Camellia256::decrypt_block,camellia::utils::fl,camellia::utils::flinv uses=c_f,l_f_xor timeout=600
+// @ob name=l_roundtrip_rev_256 props=C01 kind=lemma fn=camellia::Camellia256::encrypt_block,camellia::Camellia256::decrypt_block,camellia::utils::fl,camellia::utils::flinv uses=c_f,l_f_xor timeout=600
+roundtrip!(l_roundtrip_256, l_roundtrip_rev_256, any256, 24);
